@@ -598,7 +598,7 @@ func (a *Act) callByContract(st *State, callee *ssa.Function, fc *FuncContract, 
 		if fc.CallbackRank != nil || clauseMentions(fc, "tlen") {
 			l0 := st.heap(traceLen, "Int")
 			for h, srt := range u.heapSort {
-				if _, isTrace := traceSorts[h]; !(isTrace || (strings.HasPrefix(h, "T_arg_") || strings.HasPrefix(h, "T_res_"))) {
+				if _, isTrace := traceSorts[h]; !(isTrace || (strings.HasPrefix(h, "T_arg_") || strings.HasPrefix(h, "T_res") || strings.HasPrefix(h, "T_recv_"))) {
 					continue
 				}
 				oldH := st.heap(h, srt)
@@ -632,7 +632,7 @@ func (a *Act) callByContract(st *State, callee *ssa.Function, fc *FuncContract, 
 		if len(ghostNames) > 0 && mentions(cl.Expr, ghostNames) {
 			continue // postconditions over the callee's ghost variables are not visible to callers
 		}
-		if exprMentions(cl.Expr, "targ") || exprMentions(cl.Expr, "tres") {
+		if exprMentions(cl.Expr, "targ") || exprMentions(cl.Expr, "tres") || exprMentions(cl.Expr, "tres1") || exprMentions(cl.Expr, "trecv") {
 			continue // so are postconditions over the callee's own traced calls
 		}
 		st.assume(a.evalClause(qenv, cl))
@@ -892,7 +892,7 @@ func (a *Act) frameObligations(out *State, fc *FuncContract) {
 	sort.Strings(names)
 	for _, n := range names {
 		srt := u.heapSort[n]
-		if _, isTrace := traceSorts[n]; isTrace || strings.HasPrefix(n, "G_") || strings.HasPrefix(n, "T_arg_") || strings.HasPrefix(n, "T_res_") || n == outHeap || n == outOKHeap {
+		if _, isTrace := traceSorts[n]; isTrace || strings.HasPrefix(n, "G_") || strings.HasPrefix(n, "T_arg_") || strings.HasPrefix(n, "T_res") || strings.HasPrefix(n, "T_recv_") || n == outHeap || n == outOKHeap {
 			continue // ghost state
 		}
 		init := u.heapInit(n, srt)
